@@ -3,6 +3,7 @@ package props
 import (
 	"fmt"
 	"math"
+	"regexp"
 	"strconv"
 	"strings"
 	"time"
@@ -280,33 +281,144 @@ func c14NonDyadicCopyShards(tier string) []mc.Shard {
 }
 
 // countLastBitsOnly is the history predicate of the known finding of C14: the two
-// observations quoted in the violation are identical except for the last bits of
-// count= (at most 4 ulps). It names exactly this failure: the buffered paginated
-// store computes its total as len(buffer) + sum(pages) on every call, so when a
-// read compacts the buffer the same bins are summed in another order.
+// observations quoted in the violation show the same bins, zero weight, extremes,
+// emptiness and sum, and differ in the last bits of count= (at most 4 ulps) and
+// possibly in quantile answers, which are computed from that count (a rank that
+// sits exactly on a cumulative boundary moves to the neighbouring bin). It names
+// exactly this failure: the buffered paginated store computes its total as
+// len(buffer) + sum(pages) on every call, so when a read compacts the buffer the
+// same bins are summed in another order.
+var (
+	obsCount = regexp.MustCompile(`count=(\S+)`)
+	obsQuant = regexp.MustCompile(`(q|batch)=\[[^\]]*\]`)
+)
+
 func countLastBitsOnly(v mc.Violation) bool {
 	var rest []string
 	var counts []float64
 	for _, line := range strings.Split(v.Detail, "\n") {
-		i := strings.Index(line, "count=")
-		if i < 0 {
+		m := obsCount.FindStringSubmatch(line)
+		if m == nil {
 			continue
 		}
-		obs := line[i+len("count="):]
-		j := strings.IndexByte(obs, ' ')
-		if j < 0 {
-			return false
-		}
-		c, err := strconv.ParseFloat(obs[:j], 64)
+		c, err := strconv.ParseFloat(m[1], 64)
 		if err != nil {
 			return false
 		}
 		counts = append(counts, c)
-		rest = append(rest, obs[j:])
+		obs := line[strings.Index(line, "count="):]
+		obs = obsCount.ReplaceAllString(obs, "count=*")
+		obs = obsQuant.ReplaceAllString(obs, "$1=*")
+		rest = append(rest, obs)
 	}
 	if len(counts) != 2 || rest[0] != rest[1] || counts[0] == counts[1] {
 		return false
 	}
 	m := math.Max(math.Abs(counts[0]), math.Abs(counts[1]))
 	return math.Abs(counts[0]-counts[1]) <= 4*math.Ldexp(m, -52)
+}
+
+// C06 for sketches with exact statistics whose running total has rounded: the
+// weights are powers of two (they survive the codec's +1/-1 transform) but 2^53
+// apart, so the count kept by insertion order is not the index-order sum of the
+// bins. Encoding such a sketch and decoding it must succeed and give back the
+// same bins and the same exact statistics.
+func c06RoundedTotalShards(tier string) []mc.Shard {
+	name := "C06/exact-variant/rounded-totals"
+	run := func(deadline time.Time) *mc.Result {
+		start := time.Now()
+		res := &mc.Result{Scenario: name, Property: "C06", Exhaustive: true}
+		type add struct {
+			idx int
+			w   float64
+		}
+		var alpha []add
+		for _, i := range []int{3, 0, 40} {
+			for _, w := range []float64{1 << 25, math.Ldexp(1, -28), 1, 3} {
+				alpha = append(alpha, add{i, w})
+			}
+		}
+		depth := 3
+		if tier == "thorough" {
+			depth = 4
+		}
+		distinct := map[string]struct{}{}
+		fail := func(hist, detail string) {
+			if len(res.Violations) < 4 {
+				res.Violations = append(res.Violations, mc.Violation{Property: "C06", Clause: "C06.same-answers", Scenario: name, Seed: "additions", History: []string{hist}, Detail: hist + ": " + detail})
+			}
+		}
+		kinds := []Kind{{K: 'D'}, {K: 'S'}, {K: 'P'}}
+		seq := make([]int, 0, depth)
+		var rec func()
+		rec = func() {
+			if len(seq) > 0 {
+				if time.Now().After(deadline) {
+					res.Exhaustive = false
+					return
+				}
+				var hs []string
+				for _, j := range seq {
+					hs = append(hs, fmt.Sprintf("AddWithCount(Value(%d), %v)", alpha[j].idx, alpha[j].w))
+				}
+				hist := strings.Join(hs, "; ")
+				for ki, k := range kinds {
+					res.Evaluations++
+					mc.Progress(func() string { return fmt.Sprintf("exact-variant sketch on %s stores: %s; encode; decode", k, hist) })
+					src := NewSkSlot(MapSpec{Kind: 'G', Alpha: 0.1}.New(), k, true)
+					m := src.Mapping()
+					for _, j := range seq {
+						must(src.Q().AddWithCount(m.Value(alpha[j].idx), alpha[j].w), "add")
+					}
+					var b []byte
+					src.Q().Encode(&b, false)
+					want := SketchContent(src.Q())
+					distinct[want] = struct{}{}
+					for _, tk := range []Kind{k, kinds[(ki+1)%len(kinds)]} {
+						dec, err := DecodeSlot(b, tk, true, nil)
+						if err != nil {
+							fail(hist, fmt.Sprintf("the encoding of a sketch with exact statistics on %s stores was refused by its own decoder (%s stores): %v", k, tk, err))
+							continue
+						}
+						if got := SketchContent(dec.Q()); got != want {
+							fail(hist, fmt.Sprintf("decoded into %s stores the bins differ\n  got:  %s\n  want: %s", tk, got, want))
+						}
+						c := src.E.GetCount()
+						if (c+1)-1 == c && dec.E.GetCount() != c {
+							fail(hist, fmt.Sprintf("decoded into %s stores the exact count is %v, encoded %v", tk, dec.E.GetCount(), c))
+						}
+						smin, _ := src.E.GetMinValue()
+						smax, _ := src.E.GetMaxValue()
+						dmin, _ := dec.E.GetMinValue()
+						dmax, _ := dec.E.GetMaxValue()
+						if smin != dmin || smax != dmax || src.E.GetSum() != dec.E.GetSum() {
+							fail(hist, fmt.Sprintf("decoded into %s stores the exact min/max/sum are %v/%v/%v, encoded %v/%v/%v", tk, dmin, dmax, dec.E.GetSum(), smin, smax, src.E.GetSum()))
+						}
+					}
+				}
+			}
+			if len(seq) == depth {
+				return
+			}
+			for j := range alpha {
+				seq = append(seq, j)
+				rec()
+				seq = seq[:len(seq)-1]
+			}
+		}
+		rec()
+		res.Distinct = int64(len(distinct))
+		res.Samples = []string{fmt.Sprintf("%s: all sequences of <= %d additions over 3 values x weights {2^25, 2^-28, 1, 3}, 3 store kinds, decoded into 2 kinds", name, depth)}
+		mc.FlushSide(res)
+		res.WallS = time.Since(start).Seconds()
+		return res
+	}
+	return []mc.Shard{{Name: name, Weight: 50, Run: run, Replay: func(string, []string) ([]mc.Fail, error) {
+		r := run(time.Now().Add(20 * time.Minute))
+		var fails []mc.Fail
+		for _, v := range r.Violations {
+			fails = append(fails, mc.Fail{Clause: v.Clause, Detail: v.Detail})
+		}
+		return fails, nil
+	}}}
 }
